@@ -18,6 +18,8 @@ pub fn templates() -> Vec<&'static str> {
         "use-db {DB} tok",
         "use-db {DB} wrong",
         "use-db {DB} bob bobtok",
+        "use-db {DB} bob wrong",
+        "use-db {DB} ghost wrong",
         "get a",
         "get zz",
         "get-safe a",
